@@ -1178,3 +1178,78 @@ def init_covers(ctx, rule, view, init_name, user_names, what):
                    '%s: an object placed in recycled (non-zero) memory starts from whatever the previous owner left in a field the '
                    'initialiser skips' % what, loc=ini.loc, detail='read by %s at %s' % (un, ins.loc))
     return n
+
+
+def chain_discipline(ctx, rule, f, producers, label):
+    """the collect-then-release idiom of the wake-many functions: each element obtained in the collecting loop is appended to
+    a private chain (tail->next = t, or head = t for the first), becomes the new tail on every iteration, ends the chain
+    (t->next = 0), and the release loop starts from the head"""
+    ps = [c for c in f.calls() if c.callee in producers]
+    ctx.ob(rule, '%s: one producer site in a loop' % label, len(ps) == 1 and loop_containing(f, ps[0]) is not None, 'collecting loop', loc=f.loc)
+    if len(ps) != 1 or loop_containing(f, ps[0]) is None:
+        return
+    p = ps[0]
+    lp = loop_containing(f, p)
+    # outermost loop that contains the producer but not the run-queue pushes
+    pushes = [c for c in f.calls() if c.callee == 'myth_queue_push']
+    cand = [l for l in f.loops if p.block.id in l['blocks'] and not any(x.block.id in l['blocks'] for x in pushes)]
+    if cand:
+        lp = max(cand, key=lambda l: len(l['blocks']))
+    tsrc = set(f.sources(p.id)) | {p.id}
+
+    hdr_phis = set(i.id for i in f.blocks[lp['header']].insts if i.op == 'phi')
+
+    def is_t(v, depth=0):
+        # v is the element obtained in *this* iteration: the producer's result, possibly through casts, the inner spin
+        # loop's phi and merges of such values - never a value carried round the collecting loop
+        if not isinstance(v, str) or depth > 12:
+            return False
+        v = f.strip(v)
+        if v == p.id:
+            return True
+        if v in hdr_phis:
+            return False
+        i = f.insts.get(v)
+        if i is None or i.op != 'phi':
+            return False
+        vals = [x for x, b in i.d['incoming'] if not (isinstance(x, dict) and (x.get('null') or x.get('undef')))]
+        vals = [x for x in vals if not (isinstance(x, str) and f.strip(x) == v)]
+        return bool(vals) and all(is_t(x, depth + 1) for x in vals)
+    hdr = f.blocks[lp['header']]
+    phis = [i for i in hdr.insts if i.op == 'phi' and i.ty.endswith('*') and
+            any(isinstance(v, dict) and v.get('null') for v, b in i.d['incoming'] if b not in lp['blocks'])]
+    links = [st for st in f.stores_to('myth_thread.next') if is_t(st.ops[0]) and st.block.id in lp['blocks']]
+    tails = [ph for ph in phis if any(f.strip(f.ap(st.ops[1]).root) == ph.id or ph.id in f.sources(f.ap(st.ops[1]).root) for st in links)]
+    heads = [ph for ph in phis if ph not in tails]
+    ctx.ob(rule, '%s: chain has a head and a tail' % label, len(tails) == 1 and len(heads) >= 1 and len(links) >= 1,
+           'to_wake_head / to_wake_tail and tail->next = t', loc=p.loc, detail='%d pointer phis, %d link stores' % (len(phis), len(links)))
+    for ph in tails:
+        lat = [v for v, b in ph.d['incoming'] if b in lp['blocks']]
+        ctx.ob(rule, '%s: the new element becomes the tail on every iteration' % label, bool(lat) and all(is_t(v) for v in lat),
+               'a tail that stays behind makes the next append overwrite the link to every element in between, which is then '
+               'dequeued but never made runnable', loc=p.loc, detail=', '.join(describe(f, v) for v in lat))
+        for st in links:
+            ctx.ob(rule, '%s: link only behind an existing tail' % label, guarded_by_nonnull(f, ph.id, st), 'if (tail) tail->next = t',
+                   loc=st.loc)
+    for ph in heads:
+        lat = [v for v, b in ph.d['incoming'] if b in lp['blocks']]
+        def head_ok(v, depth=0):
+            if not isinstance(v, str) or depth > 8:
+                return False
+            v2 = f.strip(v)
+            if v2 == ph.id or is_t(v2):
+                return True
+            i = f.insts.get(v2)
+            if i is not None and i.op == 'phi' and v2 not in hdr_phis:
+                return all(head_ok(x, depth + 1) for x, b in i.d['incoming'])
+            return False
+        ok = bool(lat) and all(head_ok(v) for v in lat)
+        ctx.ob(rule, '%s: head is the first element' % label, ok, 'head changes only from NULL to the first element', loc=p.loc)
+    term = [st for st in f.stores_to('myth_thread.next') if isinstance(st.ops[0], dict) and st.ops[0].get('null') and
+            is_t(f.ap(st.ops[1]).root) and st.block.id in lp['blocks']]
+    ctx.ob(rule, '%s: each element ends the chain' % label, len(term) >= 1, 't->next = 0', loc=p.loc)
+    for x in pushes:
+        srcs = set(k for k in f.sources(x.args[1]) if not k.startswith('{'))
+        okh = bool(srcs) and all(k in [h.id for h in heads] or k in tsrc or
+                                 (k in f.insts and f.insts[k].op == 'load' and f.field(f.insts[k]) == 'myth_thread.next') for k in srcs)
+        ctx.ob(rule, '%s: release walks the chain from its head' % label, okh, 'to_wake = head; push; to_wake = next', loc=x.loc)
